@@ -26,9 +26,11 @@ if [ $ok = 0 ]; then echo "NOT CONFIRMED"; git -C /repo worktree remove --force 
 # VERIF_REPO points the checks at it, so concurrently running work on /repo itself is not disturbed)
 res=""
 for Q in $P "$@"; do
+  cp /verif/evidence/$Q.json /tmp/wt/evidence-$Q.bak 2>/dev/null   # evidence must come from runs against /repo: keep it
   o=$(cd /verif && VERIF_REPO=$WT timeout 3000 ./check $Q --tier quick 2>&1 | grep -E "^(VIOLATION|OK)" | head -3)
   echo "[$Q] $o"
   res="$res [$Q] $o;"
+  cp /tmp/wt/evidence-$Q.bak /verif/evidence/$Q.json 2>/dev/null
 done
 git -C /repo worktree remove --force $WT
 mkdir -p $DEST
